@@ -561,6 +561,11 @@ func TestC01Delivery(t *testing.T) {
 			if s.ip == "127.0.0.1" && !dst.IP.IsLoopback() {
 				continue // no real caller does this (no return path)
 			}
+			if rapid.Bool().Draw(t, "dst4") {
+				// the 4-byte form of the same address (what a peer's ReadFrom reports on some paths)
+				dst = &net.UDPAddr{IP: append(net.IP(nil), dst.IP.To4()...), Port: dst.Port}
+				w.c.Label("dst/4-byte-ip")
+			}
 			if rapid.IntRange(0, 19).Draw(t, "rebind") == 7 {
 				// the socket is closed, its address is bound again by a new socket, and the
 				// old one is closed a second time (deferred Close after an explicit one):
